@@ -73,6 +73,19 @@ Theorem tool_setting_survives_first_use :
 Proof. exact cow_lemma. Qed.
 Print Assumptions tool_setting_survives_first_use.
 
+(* the shared UI: whatever order the concurrent Print/PrintErr calls are serialised in, the stream read
+   back line by line is exactly the messages in that order -- one message per line, none torn, none empty
+   unless a message is empty *)
+Theorem ui_print_whole_lines : forall ms, forallb no_nl ms = true -> lines (ui_stream ms) = ms.
+Proof. exact ui_lines_lemma. Qed.
+Print Assumptions ui_print_whole_lines.
+
+(* a message and its newline written separately can be torn: "a" "b" "\n" "\n" reads back as ["ab"; ""] *)
+Theorem split_newline_write_tears :
+  lines ("a" ++ "b" ++ String nl (String nl "")) = ["ab"; ""]%string.
+Proof. vm_compute. reflexivity. Qed.
+Print Assumptions split_newline_write_tears.
+
 (* sync.Once around computeBase: the body runs exactly once and every caller that has returned
    reads the value computed by that one run *)
 Theorem once_computes_once : forall (A V : Type) (f : A -> V) (addr : nat -> A) th0 log s,
